@@ -16,7 +16,7 @@ def digest(s):
     return hashlib.sha256(s.encode()).hexdigest()[:24]
 
 
-def run_requests(ctx, exe, requests, meta, trace_name='xtrace.ndjson'):
+def run_requests(ctx, exe, requests, meta, trace_name='xtrace.ndjson', project=None):
     """requests: list of dict(id, text[, reps]); meta: dict id -> dict(mode, g/expect, ...) merged into every record of that request.
 
     Writes the trace (out replaced by its digest) and returns (trace_path, records).
@@ -29,7 +29,7 @@ def run_requests(ctx, exe, requests, meta, trace_name='xtrace.ndjson'):
         for r in recs:
             m = meta[r['id']]
             e = {'ev': 'expand', 'id': r['id'], 'rep': r.get('rep', 0), 'outcome': r['outcome'],
-                 'out': digest(r['out']) if r.get('out') is not None else '', 'mode': m['mode'],
+                 'out': (digest(project(r, m)) if project else digest(r['out'])) if r.get('out') is not None else '', 'mode': m['mode'],
                  'g': m.get('g', ''), 'expect': m.get('expect', ''), 'reset': bool(m.get('reset', False)) and r.get('rep', 0) == 0}
             f.write(json.dumps(e, separators=(',', ':')) + '\n')
             slim.append(e)
